@@ -22,13 +22,17 @@ use yash_fnmatch::PatternChar;
 /// Converts unquoted backslashes to quoting characters.
 ///
 /// Sets the `is_quoting` flag of unquoted backslashes and the `is_quoted` flag
-/// of their following characters.
+/// of their following characters. Quoting characters are not part of the
+/// pattern, so the character a backslash escapes is the next character that
+/// is not a quoting character.
 pub fn apply_escapes(chars: &mut [AttrChar]) {
-    for j in 1..chars.len() {
-        let i = j - 1;
+    for i in 0..chars.len() {
         if chars[i].value == '\\' && !chars[i].is_quoting && !chars[i].is_quoted {
-            chars[i].is_quoting = true;
-            chars[j].is_quoted = true;
+            let next = chars[i + 1..].iter().position(|c| !c.is_quoting);
+            if let Some(offset) = next {
+                chars[i].is_quoting = true;
+                chars[i + 1 + offset].is_quoted = true;
+            }
         }
     }
 }
